@@ -1280,6 +1280,18 @@ def total_ticks(case, block):
             span = (l[-1] - l[0]) + (l[-1] - l[-2])
             if span * 90000 >= 2**32 - 2:
                 return True
+    # the estimate above does not see the automatic clocks of encode_video / encode_audio: read the class off
+    # the file itself (the class is DEFINED by the file: some track's sample durations sum to 2^32 ticks or more)
+    try:
+        r = mp4.root(sink_of(block))
+        for trak in (r.find(b"moov", b"trak") if r is not None else []):
+            stts = mp4.track_tables(trak)["stts"]
+            if stts:
+                w = mp4.u32s(bytes.fromhex(stts)[8:])
+                if sum(w[i] * w[i + 1] for i in range(0, len(w) - 1, 2)) >= 2**32:
+                    return True
+    except Exception:
+        pass
     return False
 
 
@@ -1406,10 +1418,14 @@ def cli_probes(rng, prefix):
                 rate=48000, ch=2, frag=False, dry=False, title=None, lang=None, json=False, verbose=False, badout=False)
     variants = [("fps", v) for v in ("NaN", "nan", "inf", "-inf", "0", "-0", "121", "120.0000001", "120", "1e-9", "-1", "1e400")] + \
                [("w", v) for v in (319, 320, 4096, 4097)] + [("h", v) for v in (239, 240, 2160, 2161)]
+    variants += [("rate", v) for v in (0, 1, 7999, 8000, 192000, 192001, 192999, 193000)] + [("ch", v) for v in (0, 1, 8, 9)]
     for k, (key, v) in enumerate(variants):
         d = dict(base, id="%sprobe%d" % (prefix, k))
         d[key] = v
         d["video"] = ("valid", h264_key(rng, extra=False).hex().encode())
+        if key in ("rate", "ch"):
+            d["acodec"], d["aalias"] = "aac-lc", "aac"
+            d["audio"] = ("valid", adts(rng).hex().encode())
         c = Case(d["id"], "cli")
         c.meta = d
         c.lines = [json.dumps({k2: (v2 if not isinstance(v2, tuple) else [v2[0], (v2[1].hex() if v2[1] is not None else None)]) for k2, v2 in d.items()})]
@@ -2147,3 +2163,8 @@ for _p in ("C01", "C02", "C03", "C04", "C05", "C06", "C07", "C08", "C09", "C13",
     PROPS[_p]["fams"] = PROPS[_p]["fams"] + [("fam_neighbours", 1, 3)]
 for _p in ("C10", "C11", "C12", "C07", "C19", "C02"):
     PROPS[_p]["fams"] = PROPS[_p]["fams"] + [("fam_frag_neighbours", 1, 3)]
+for _p in ("C04", "C05", "C17", "C03"):
+    PROPS[_p]["fams"] = PROPS[_p]["fams"] + [("fam_signed_zero", 16, 200)]
+for _p in ("C10", "C11", "C12", "C16"):
+    PROPS[_p]["fams"] = PROPS[_p]["fams"] + [("fam_frag_numeric", 24, 400)]
+PROPS["C15"]["fams"] = PROPS["C15"]["fams"] + [("fam_extreme_ts", 60, 1500)]
